@@ -160,9 +160,7 @@ def takeSelector : List Str → List Str × List Str
     else ([], t :: r)
 
 /-- selector loop of a table look-up: everything up to `]`, without `[`; the `]` is dropped.
-`none` = no `]` before the end: the code then increments its index past `string_tokens.size()`
-and reads `string_tokens[size + 1]` in the next round (undefined behaviour; finding
-`table-lookup-unterminated`). -/
+`none` = no `]` before the end: `std::invalid_argument` ("Missing ']' in table look-up"). -/
 def takeLookup : List Str → Option (List Str × List Str)
   | [] => none
   | t :: r =>
@@ -172,7 +170,7 @@ def takeLookup : List Str → Option (List Str × List Str)
       | none => none
       | some (sel, rest) => some (if tokenType t = .table_lookup_start then sel else unquote t :: sel, rest)
 
-/-- `make_udq_tokens`; `none` = runs past the end of the token vector -/
+/-- `make_udq_tokens`; `none` = throws (table look-up without `]`) -/
 def makeTokens : Nat → List Str → Option (List LTok)
   | 0, _ => some []
   | _ + 1, [] => some []
@@ -190,7 +188,7 @@ def makeTokens : Nat → List Str → Option (List LTok)
 inductive Lexed where
   | ok (ts : List LTok)
   | unbalanced        -- `quote_split` throws
-  | pastEnd           -- undefined behaviour in `make_udq_tokens`
+  | missingBracket    -- `make_udq_tokens` throws
   deriving Repr
 
 def tokenize (items : List Str) : Lexed :=
@@ -199,7 +197,7 @@ def tokenize (items : List Str) : Lexed :=
   | some strs =>
     match makeTokens strs.length strs with
     | some ts => .ok ts
-    | none => .pastEnd
+    | none => .missingBracket
 
 /-! ### value of a number token (`stod`) for decimal literals -/
 
